@@ -1517,8 +1517,31 @@ static int parse_loop_header(struct scanner_s *scanner, cif_container_tp *contai
                 (*next_namep)->string[token_length] = 0;
 
                 /* check for data name duplication */
-                switch (result = ((container == NULL) ? CIF_NOSUCH_ITEM
-                            : cif_container_get_item_loop(container, (*next_namep)->string, NULL))) {
+                result = ((container == NULL) ? CIF_NOSUCH_ITEM
+                            : cif_container_get_item_loop(container, (*next_namep)->string, NULL));
+                if ((result == CIF_NOSUCH_ITEM) && (container != NULL)) {
+                    /* the name must not duplicate one that appears earlier in this same loop header, either */
+                    UChar *name_norm = NULL;
+
+                    if (cif_normalize((*next_namep)->string, -1, &name_norm) == CIF_OK) {
+                        string_element_tp *earlier;
+
+                        for (earlier = *name_list_head; (earlier != *next_namep) && (result != CIF_OK);
+                                earlier = earlier->next) {
+                            UChar *earlier_norm = NULL;
+
+                            if ((earlier->string != NULL)
+                                    && (cif_normalize(earlier->string, -1, &earlier_norm) == CIF_OK)) {
+                                if (u_strcmp(name_norm, earlier_norm) == 0) {
+                                    result = CIF_OK;  /* handled as a duplicate, below */
+                                }
+                                free(earlier_norm);
+                            }
+                        }
+                        free(name_norm);
+                    }
+                }
+                switch (result) {
                     case CIF_NOSUCH_ITEM:
                         /* the expected case */
                         break;
